@@ -135,6 +135,9 @@ func printHarnessResult(hr *HarnessResult, verbose bool) {
 			fmt.Fprintf(os.Stderr, "        nd:%s\n", sb.String())
 		}
 	}
+	if verbose && os.Getenv("VERIF_DEBUG") != "" {
+		fmt.Fprintf(os.Stderr, "   decisions histogram: %v\n", hr.DecHist)
+	}
 	if verbose {
 		var rs []string
 		for k := range hr.Reached {
